@@ -374,35 +374,32 @@ func isMinFunc(f *ssa.Function) bool {
 	if f == nil || len(f.Params) != 2 || len(f.Blocks) == 0 || f.Signature.Results().Len() != 1 {
 		return false
 	}
-	cmp := false
-	onlyParams := true
+	// every return gives one of the two parameters, on an edge where it is known not to exceed the other
+	// (however the comparison is written: a < b, b > a, !(a >= b) ...)
+	a, b := ssa.Value(f.Params[0]), ssa.Value(f.Params[1])
+	n, ok := 0, true
 	eachInstr(f, func(in ssa.Instruction) {
-		switch x := in.(type) {
-		case *ssa.BinOp:
-			if (x.Op == token.LSS || x.Op == token.LEQ) && x.X == ssa.Value(f.Params[0]) && x.Y == ssa.Value(f.Params[1]) {
-				cmp = true
-			}
-		case *ssa.Return:
-			if x.Results[0] != ssa.Value(f.Params[0]) && x.Results[0] != ssa.Value(f.Params[1]) {
-				onlyParams = false
-			}
+		r, isR := in.(*ssa.Return)
+		if !isR {
+			return
+		}
+		n++
+		p, q := r.Results[0], ssa.Value(nil)
+		switch p {
+		case a:
+			q = b
+		case b:
+			q = a
+		default:
+			ok = false
+			return
+		}
+		fs := factsAt(r.Block())
+		if !factCmp(fs, token.LEQ, isValue(p), isValue(q)) && !factCmp(fs, token.LSS, isValue(p), isValue(q)) {
+			ok = false
 		}
 	})
-	if !cmp || !onlyParams {
-		return false
-	}
-	// returns a on the a<b edge
-	ok := false
-	eachInstr(f, func(in ssa.Instruction) {
-		if r, isR := in.(*ssa.Return); isR && r.Results[0] == ssa.Value(f.Params[0]) {
-			for _, fc := range factsAt(r.Block()) {
-				if fc.Pol {
-					ok = true
-				}
-			}
-		}
-	})
-	return ok
+	return ok && n == 2
 }
 
 // bounds reports whether v, used at instruction at, is bounded below / above by constants or untainted quantities.
